@@ -26,6 +26,8 @@ SPEC['explanation'] += ' T8r (string class): a raw byte position from buffer.tel
 SPEC['decided'] += ['decoder read-ahead: no raw-position restore in the string class']
 SPEC['explanation'] += ' T9.tellafter: SpooledStringIO.write advances _tell only after the data is in the buffer.'
 SPEC['decided'] += ['position advanced after the write']
+SPEC['explanation'] += ' T12.lines: SpooledStringIO cuts lines at the io boundaries only (no str.splitlines).'
+SPEC['decided'] += ['line boundaries of the text class']
 MANIFEST = {
     'technique': 'save/disturb/restore typestate over all CFG paths per position component; unit (code point vs byte) qualifier check; ordering and reset-completeness checks',
     'text': ('Decides necessary structural conditions of C18: read-only queries leave both position components where they '
@@ -139,6 +141,19 @@ def run(ctx):
     require_fields(ctx.program, 'ioutils.SpooledBytesIO', ['_buffer'])
     require_fields(ctx.program, 'ioutils.MultiFileReader', ['_index', '_fileobjs'])
     prog = ctx.program
+    # T12.lines: the text class never cuts lines with str.splitlines: it splits at \x0b \x0c \x1c-\x1e \x85 \u2028 \u2029 as well,
+    # io.StringIO (the reference of the property) only at \n, \r and \r\n.  (bytes.splitlines has the io boundaries.)
+    from sa.index import FuncInfo as _FI
+    _ci = prog.cls('ioutils.SpooledStringIO')
+    for _nm, _m in _ci.members.items():
+        if not isinstance(_m, _FI):
+            continue
+        _bad = [c for c in ast.walk(_m.node) if isinstance(c, ast.Call) and isinstance(c.func, ast.Attribute) and c.func.attr == 'splitlines'
+                and 'buffer' not in txt(c.func.value) and not any(isinstance(x, ast.Call) and isinstance(x.func, ast.Attribute) and
+                                                                  x.func.attr == 'encode' for x in ast.walk(c.func.value))]
+        if _nm in ('readline', 'readlines', '__next__', 'next', '__iter__') or _bad:
+            ctx.ob('T12.lines', _m.fq, 'lines of the text class are cut at the io line boundaries (no str.splitlines, which also splits at '
+                   '\\x0b, \\x0c, \\x1c-\\x1e, \\x85, \\u2028, \\u2029)', not _bad, loc=_m.loc, detail=txt(_bad[0])[:80] if _bad else '')
     for cls, comps in (('ioutils.SpooledBytesIO', ('BYTE',)), ('ioutils.SpooledStringIO', ('BYTE', 'TELL'))):
         for name in ('len', 'getvalue', '__eq__'):
             observer_restore(ctx, prog, cls, name, comps)
